@@ -21,6 +21,9 @@ func (xp xpathImpl) resolvePath(seg *xpath.Path, s *Selection) (*Selection, erro
 		if err != nil || sel == nil {
 			return nil, err
 		}
+		if seg.Next == nil {
+			return sel, nil
+		}
 		return xp.resolvePath(seg.Next, sel)
 	}
 	if meta.IsList(m) {
